@@ -13,3 +13,15 @@ package ext
 //@ iface CancelContext.Done
 //@ iface CancelContext.Cancel
 //@ iface CancelContext.Free
+
+//@ package github.com/basecomplextech/baselibrary/async
+
+// routines: the started goroutine is not modelled (every obligation is about one call alone)
+//@ func RunVoid
+//@   trusted
+//@   ensures result != nil
+//@ func StopWaitAll
+//@   trusted
+//@ iface Routine.Wait
+//@ iface Routine.Status
+//@ iface Routine.Stop
